@@ -46,7 +46,7 @@ class Interp(Engine):
             r = self.repo.lookup(mod, name)
             if r is not None:
                 return self.global_value(r, name, node)
-        if name in self.reg.functions or name in self.reg.defs or name in SPEC_BUILTINS:
+        if name in self.reg.functions or name in self.reg.defs or name in SPEC_BUILTINS or (self.spec_mode and hasattr(self, "sp_" + name)):
             return SpecFn(name)
         if name in BUILTIN_FUNCS:
             if name in BUILTIN_CLASSES:
@@ -251,12 +251,14 @@ class Interp(Engine):
         if isinstance(v, (SV, PSeq)):
             seq = self.as_seq(v, node)
             et = self.elem_tag(v)
-            ok = z3.Length(seq) == n
-            if not self.branch(ok, "unpack L%d" % getattr(node, "lineno", 0)):
-                self.raise_builtin("ValueError", node)
             tags = [et] * n
             if et and et.startswith("("):
                 tags = _split_tags(et)
+                if len(tags) == n:
+                    self.assume(z3.Length(seq) == n)     # fixed-arity tuple (trusted typing)
+            ok = z3.Length(seq) == n
+            if not self.branch(ok, "unpack L%d" % getattr(node, "lineno", 0)):
+                self.raise_builtin("ValueError", node)
             return [self.from_term(seq[i], tags[i] if i < len(tags) else None) for i in range(n)]
         self.unsupported(node, "unpack of %r" % (v,))
 
@@ -368,7 +370,7 @@ class Interp(Engine):
             kind, arg = parse_tag(it.ty)
             if kind in ("list", "tuple", "seq", "iter"):
                 return self.as_seq(it, node), arg
-            if kind in ("set", "frozenset"):
+            if kind in ("set", "frozenset", "anyset"):
                 m = self.setmap_of(it)
                 # an arbitrary order: fresh sequence enumerating exactly the members, without repetition
                 seq = so.fresh("order", SeqV)
@@ -436,7 +438,7 @@ class Interp(Engine):
                 return SV(Val.strv(so.fresh(name, S)), "str")
             if kind == "none":
                 return SV(so.fresh(name, Val), None)
-            if kind in ("list", "set", "frozenset", "dict") or (kind and kind[0].isupper()):
+            if kind in ("list", "set", "frozenset", "anyset", "dict") or (kind and kind[0].isupper()):
                 return SV(Val.ref(so.fresh(name, I)), v.ty)
             return SV(so.fresh(name, Val), v.ty)
         return SV(so.fresh(name, Val), None)
@@ -800,14 +802,17 @@ class Interp(Engine):
 
     def kind_of(self, v):
         if isinstance(v, SV):
-            return parse_tag(v.ty)[0]
+            k, arg = parse_tag(v.ty)
+            if k == "opt":
+                return parse_tag(arg)[0]     # used where the code has already excluded None
+            return k
         if isinstance(v, TupV):
             return "TupV"
         return type(v).__name__
 
     def binop(self, op, a, b, node):
         ka, kb = self.kind_of(a), self.kind_of(b)
-        setish = ("set", "frozenset", "PSet")
+        setish = ("set", "frozenset", "anyset", "PSet")
         if isinstance(op, ast.Add):
             if ka == "int" and kb == "int":
                 return SV(Val.intv(self.as_int(a) + self.as_int(b)), "int")
@@ -899,7 +904,7 @@ class Interp(Engine):
             return self.as_seq(a, node) == self.as_seq(b, node)
         if ka in ("tuple", "TupV", "PSeq") and kb in ("tuple", "TupV", "PSeq"):
             return self.as_seq(a, node) == self.as_seq(b, node)
-        setish = ("set", "frozenset", "PSet")
+        setish = ("set", "frozenset", "anyset", "PSet")
         if ka in setish and kb in setish:
             return self.as_setmap(a, node) == self.as_setmap(b, node)
         if ka in ("dict", "PMap") and kb in ("dict", "PMap"):
@@ -922,7 +927,7 @@ class Interp(Engine):
         if isinstance(op, ast.NotIn):
             return z3.Not(self.contains(b, a, node))
         ka, kb = self.kind_of(a), self.kind_of(b)
-        setish = ("set", "frozenset", "PSet")
+        setish = ("set", "frozenset", "anyset", "PSet")
         if ka in setish and kb in setish:
             ma, mb = self.as_setmap(a, node), self.as_setmap(b, node)
             if isinstance(op, ast.LtE):
@@ -946,7 +951,7 @@ class Interp(Engine):
             if not container.items:
                 return z3.BoolVal(False)
             return z3.Or([self.equals(item, x, node) for x in container.items])
-        if k in ("set", "frozenset", "PSet"):
+        if k in ("set", "frozenset", "anyset", "PSet"):
             return self.as_setmap(container, node)[self.to_term(item, node)]
         if k in ("dict", "PMap"):
             return self.as_map(container, node)[self.to_term(item, node)] != Val.absent
@@ -1016,22 +1021,24 @@ class Interp(Engine):
             i = self.as_int(idx, node)
             i = z3.simplify(z3.If(i < 0, n + i, i))
             ok = z3.And(0 <= i, i < n)
+            et = self.elem_tag(obj)
+            if et and et.startswith("("):
+                tags = _split_tags(et)
+                et = tags[i.as_long()] if z3.is_int_value(i) and 0 <= i.as_long() < len(tags) else None
+                if z3.is_int_value(i) and 0 <= i.as_long() < len(tags):
+                    return self.from_term(seq[i], et)
             if self.spec_mode:
-                return self.from_term(seq[i], self.elem_tag(obj))
+                return self.from_term(seq[i], et)
             if not self.branch(ok, "index L%d" % node.lineno):
                 self.raise_builtin("IndexError", node)
-            return self.from_term(seq[i], self.elem_tag(obj))
+            return self.from_term(seq[i], et)
         if k in ("dict", "PMap"):
             m = self.as_map(obj, node)
             key = self.to_term(idx, node)
             val = m[key]
             vt = None
             if isinstance(obj, SV):
-                arg = parse_tag(obj.ty)[1]
-                if arg and "," in arg:
-                    vt = arg.split(",", 1)[1].strip()
-                elif arg:
-                    vt = arg
+                vt = self.dict_value_tag(obj, idx)
             elif isinstance(obj, PMap):
                 vt = obj.elem
             if self.spec_mode:
